@@ -1,15 +1,16 @@
 (* Conc/LockOrder_proofs.v — PROOFS for Conc/LockOrder.v.
      ranked_no_deadlock     every wait rank-increasing w.r.t. the locks held  ->  no deadlock
-     checked_no_deadlock    check pats rank g = true, the state conforms to pats, g exclusive -> no deadlock *)
+     checked_no_deadlock    check pats rank g = true, the state conforms to pats, g exclusive -> no deadlock
+   both for shared/exclusive modes with queued writers blocking new readers. *)
 From Coq Require Import List Arith Bool Lia.
 From NDB Require Import Conc.LockOrder.
 Import ListNotations.
 
-Lemma memb_In : forall l H, memb l H = true <-> In l H.
+Lemma holds_In : forall l H, holds l H = true <-> exists m, In (l, m) H.
 Proof.
-  intros l H; unfold memb; rewrite existsb_exists. split.
-  - intros (x & Hx & E). apply Nat.eqb_eq in E. subst x. exact Hx.
-  - intro Hin. exists l. split; [exact Hin|apply Nat.eqb_refl].
+  intros l H; unfold holds; rewrite existsb_exists. split.
+  - intros ([l' m] & Hx & E). cbn in E. apply Nat.eqb_eq in E. subst l'. exists m. exact Hx.
+  - intros (m & Hin). exists (l, m). split; [exact Hin|apply Nat.eqb_refl].
 Qed.
 
 Lemma exists_max : forall (A : Type) (f : A -> nat) (l : list A), l <> [] ->
@@ -25,90 +26,160 @@ Proof.
     + exists m. split; [right; exact Hm|]. intros y [<-|Hy]; [lia|apply Hmax; exact Hy].
 Qed.
 
-(* the general theorem: a rank function that every wait respects excludes deadlock *)
+Definition wrank (rank : lock -> nat) (st : lstate) (t : nat) : nat :=
+  match want (st t) with Some (l, _) => rank l | None => 0 end.
+
+(* core argument: if every member of a set of mutually blocked threads waits rank-increasingly, contradiction *)
+Lemma max_rank_contradiction : forall (rank : lock -> nat) (st : lstate) (S : list nat),
+  S <> [] ->
+  (forall t, In t S -> exists t', In t' S /\ blocked_by st t t') ->
+  (forall t, In t S -> forall l m, want (st t) = Some (l, m) -> forall h mh, In (h, mh) (held (st t)) -> rank h < rank l) ->
+  False.
+Proof.
+  intros rank st S Hne Hcyc Hri.
+  destruct (exists_max nat (wrank rank st) S Hne) as (t & Ht & Hmax).
+  destruct (Hcyc t Ht) as (t' & Ht' & l & m & Hw & Hb).
+  assert (Hholder : forall u, In u S -> forall mu, In (l, mu) (held (st u)) -> False).
+  { intros u Hu mu Hheld.
+    destruct (Hcyc u Hu) as (u' & _ & l2 & m2 & Hw2 & _).
+    pose proof (Hri u Hu l2 m2 Hw2 l mu Hheld) as Hlt.
+    specialize (Hmax u Hu). unfold wrank in Hmax. rewrite Hw, Hw2 in Hmax. lia. }
+  destruct Hb as [(m' & Hheld & _)|[-> Hw']].
+  - exact (Hholder t' Ht' m' Hheld).
+  - (* t' is a queued writer for l; it is blocked by a holder of l *)
+    destruct (Hcyc t' Ht') as (t'' & Ht'' & l3 & m3 & Hw3 & Hb3).
+    rewrite Hw' in Hw3. inversion Hw3. subst l3 m3.
+    destruct Hb3 as [(m'' & Hheld & _)|[E _]]; [|discriminate E].
+    exact (Hholder t'' Ht'' m'' Hheld).
+Qed.
+
 Theorem ranked_no_deadlock : forall (rank : lock -> nat) (st : lstate),
   rank_increasing rank st -> ~ deadlocked st.
 Proof.
   intros rank st Hri (S & Hne & Hcyc).
-  set (f := fun t => match want (st t) with Some l => rank l | None => 0 end).
-  destruct (exists_max nat f S Hne) as (t & Ht & Hmax).
-  destruct (Hcyc t Ht) as (l & t' & Hw & Ht' & Hheld).
-  destruct (Hcyc t' Ht') as (l' & t'' & Hw' & _ & _).
-  pose proof (Hri t' l' Hw' l Hheld) as Hlt.
-  specialize (Hmax t' Ht'). unfold f in Hmax. rewrite Hw, Hw' in Hmax. lia.
+  apply (max_rank_contradiction rank st S Hne Hcyc). intros t _. apply Hri.
 Qed.
 
-Lemma check_pattern : forall pats rank g H l, check pats rank g = true -> In (H, l) pats ->
-  ~ In l H /\ ((forall h, In h H -> rank h < rank l) \/ (In g H /\ leaf pats g l = true)).
+Lemma check_pattern : forall pats rank g H l m, check pats rank g = true -> In (H, (l, m)) pats -> m <> MTry ->
+  holds l H = false /\
+  ((forall h mh, In (h, mh) H -> rank h < rank l) \/ (holds g H = true /\ leaf pats g l m = true)).
 Proof.
-  intros pats rank g H l Hc Hin. unfold check in Hc. rewrite forallb_forall in Hc.
-  specialize (Hc (H, l) Hin). cbn [fst snd] in Hc.
+  intros pats rank g H l m Hc Hin Hm. unfold check in Hc. rewrite forallb_forall in Hc.
+  specialize (Hc (H, (l, m)) Hin). cbn [fst snd] in Hc.
+  apply orb_true_iff in Hc. destruct Hc as [Htry|Hc]; [destruct m; try discriminate Htry; exfalso; apply Hm; reflexivity|].
   apply andb_true_iff in Hc. destruct Hc as [Hre Hc]. split.
-  - intro Hl. apply memb_In in Hl. rewrite Hl in Hre. discriminate.
+  - apply negb_true_iff in Hre. exact Hre.
   - apply orb_true_iff in Hc. destruct Hc as [Hr|Hg].
-    + left. intros h Hh. rewrite forallb_forall in Hr. apply Nat.ltb_lt. apply Hr. exact Hh.
-    + right. apply andb_true_iff in Hg. destruct Hg as [Hg Hleaf]. split; [apply memb_In; exact Hg|exact Hleaf].
+    + left. intros h mh Hh. rewrite forallb_forall in Hr. apply Nat.ltb_lt. exact (Hr (h, mh) Hh).
+    + right. apply andb_true_iff in Hg. exact Hg.
 Qed.
 
-Lemma leaf_spec : forall pats g l H' l', leaf pats g l = true -> In (H', l') pats -> In l H' -> In g H'.
+Lemma leaf_held : forall pats g l m H' r', leaf pats g l m = true -> In (H', r') pats -> holds l H' = true -> holds g H' = true.
 Proof.
-  intros pats g l H' l' Hleaf Hin Hl. unfold leaf in Hleaf. rewrite forallb_forall in Hleaf.
-  specialize (Hleaf (H', l') Hin). cbn [fst] in Hleaf.
-  apply memb_In in Hl. rewrite Hl in Hleaf. cbn in Hleaf. apply memb_In. exact Hleaf.
+  intros pats g l m H' r' Hleaf Hin Hl. unfold leaf in Hleaf. apply andb_true_iff in Hleaf. destruct Hleaf as [Hleaf _].
+  rewrite forallb_forall in Hleaf. specialize (Hleaf (H', r') Hin). cbn [fst] in Hleaf. rewrite Hl in Hleaf. exact Hleaf.
+Qed.
+
+Lemma leaf_writer : forall pats g l H', leaf pats g l MR = true -> In (H', (l, MW)) pats -> holds g H' = true.
+Proof.
+  intros pats g l H' Hleaf Hin. unfold leaf in Hleaf. apply andb_true_iff in Hleaf. destruct Hleaf as [_ Hw].
+  rewrite forallb_forall in Hw. specialize (Hw (H', (l, MW)) Hin). cbn [fst snd] in Hw.
+  rewrite Nat.eqb_refl in Hw. exact Hw.
 Qed.
 
 Theorem checked_no_deadlock : forall (pats : list pattern) (rank : lock -> nat) (g : lock) (st : lstate),
-  check pats rank g = true -> conforms pats st -> gate_exclusive g st -> ~ deadlocked st.
+  check pats rank g = true -> conforms pats st -> gate_exclusive g st ->
+  (forall t l, want (st t) <> Some (l, MTry)) ->
+  ~ deadlocked st.
 Proof.
-  intros pats rank g st Hc Hconf Hex Hdead.
-  (* first: no member of a deadlocked set waits under the gate exemption *)
-  assert (Hall : forall S, (forall t, In t S -> exists l t', want (st t) = Some l /\ In t' S /\ In l (held (st t'))) ->
-                 forall t, In t S -> forall l, want (st t) = Some l -> forall h, In h (held (st t)) -> rank h < rank l).
-  { intros S Hcyc t Ht l Hw h Hh.
-    destruct (Hconf t l Hw) as (H & Hin & Hset).
-    destruct (check_pattern pats rank g H l Hc Hin) as (Hnre & [Hr|[Hg Hleaf]]).
-    - apply Hr. apply Hset. exact Hh.
-    - exfalso.
-      destruct (Hcyc t Ht) as (l0 & t' & Hw0 & Ht' & Hheld). rewrite Hw in Hw0. inversion Hw0. subst l0.
-      destruct (Hcyc t' Ht') as (l' & t'' & Hw' & _ & _).
-      destruct (Hconf t' l' Hw') as (H' & Hin' & Hset').
-      assert (Hg' : In g H') by (apply (leaf_spec pats g l H' l' Hleaf Hin'); apply Hset'; exact Hheld).
-      assert (Et : t = t') by (apply Hex; [apply Hset; exact Hg|apply Hset'; exact Hg']).
-      subst t'. apply Hnre. apply Hset. exact Hheld. }
-  destruct Hdead as (S & Hne & Hcyc).
-  set (f := fun t => match want (st t) with Some l => rank l | None => 0 end).
-  destruct (exists_max nat f S Hne) as (t & Ht & Hmax).
-  destruct (Hcyc t Ht) as (l & t' & Hw & Ht' & Hheld).
-  destruct (Hcyc t' Ht') as (l' & t'' & Hw' & _ & _).
-  pose proof (Hall S Hcyc t' Ht' l' Hw' l Hheld) as Hlt.
-  specialize (Hmax t' Ht'). unfold f in Hmax. rewrite Hw, Hw' in Hmax. lia.
+  intros pats rank g st Hc Hconf Hex Hnotry (S & Hne & Hcyc).
+  apply (max_rank_contradiction rank st S Hne Hcyc).
+  intros t Ht l m Hw h mh Hh.
+  destruct (Hconf t (l, m) Hw) as (H & Hin & Hset).
+  assert (Hm : m <> MTry) by (intro E; subst m; exact (Hnotry t l Hw)).
+  destruct (check_pattern pats rank g H l m Hc Hin Hm) as (Hnre & [Hr|[Hg Hleaf]]).
+  - apply (Hr h mh). apply Hset. exact Hh.
+  - exfalso.
+    apply holds_In in Hg. destruct Hg as (mg & Hg). apply Hset in Hg.
+    (* any member of S that holds g is t itself *)
+    assert (Hgate : forall u H' r', In u S -> want (st u) = Some r' -> In (H', r') pats ->
+                    (forall x, In x (held (st u)) <-> In x H') -> holds g H' = true -> u = t).
+    { intros u H' r' _ _ _ Hset' Hg'. apply holds_In in Hg'. destruct Hg' as (mg' & Hg'). apply Hset' in Hg'.
+      exact (Hex u t mg' mg Hg' Hg). }
+    destruct (Hcyc t Ht) as (t' & Ht' & l0 & m0 & Hw0 & Hb). rewrite Hw in Hw0. inversion Hw0. subst l0 m0.
+    destruct Hb as [(m' & Hheld & _)|[-> Hw']].
+    + (* t' holds l; t' waits in a pattern that holds l, hence the gate, hence t' = t, which holds l itself *)
+      destruct (Hcyc t' Ht') as (_ & _ & l2 & m2 & Hw2 & _).
+      destruct (Hconf t' (l2, m2) Hw2) as (H' & Hin' & Hset').
+      assert (Hl' : holds l H' = true) by (apply holds_In; exists m'; apply Hset'; exact Hheld).
+      pose proof (leaf_held pats g l m H' (l2, m2) Hleaf Hin' Hl') as Hg'.
+      pose proof (Hgate t' H' (l2, m2) Ht' Hw2 Hin' Hset' Hg') as E. subst t'.
+      assert (Hl : holds l H = true) by (apply holds_In; exists m'; apply Hset; exact Hheld).
+      rewrite Hl in Hnre. discriminate Hnre.
+    + (* t' is a queued writer for l: its pattern is under the gate, so t' = t, but t wants to read *)
+      destruct (Hconf t' (l, MW) Hw') as (H' & Hin' & Hset').
+      pose proof (leaf_writer pats g l H' Hleaf Hin') as Hg'.
+      pose proof (Hgate t' H' (l, MW) Ht' Hw' Hin' Hset' Hg') as E. subst t'.
+      rewrite Hw in Hw'. discriminate Hw'.
 Qed.
 
-(* ---- non-vacuity ---- *)
-(* the classic inversion is a deadlock in this semantics, and no rank passes the check for it *)
+(* ---- non-vacuity and the mode semantics ---- *)
+(* lock-order inversion *)
 Definition abba_state : lstate :=
   fun t => match t with
-           | 0 => {| held := [1]; want := Some 2 |}
-           | 1 => {| held := [2]; want := Some 1 |}
+           | 0 => {| held := [(1, MW)]; want := Some (2, MW) |}
+           | 1 => {| held := [(2, MW)]; want := Some (1, MW) |}
            | _ => {| held := []; want := None |}
            end.
 Example abba_deadlocked : deadlocked abba_state.
 Proof.
   exists [0; 1]. split; [discriminate|].
   intros t [<-|[<-|[]]].
-  - exists 2, 1. cbn. repeat split; auto.
-  - exists 1, 0. cbn. repeat split; auto.
+  - exists 1. split; [right; left; reflexivity|]. exists 2, MW. split; [reflexivity|]. left. exists MW. split; [left; reflexivity|reflexivity].
+  - exists 0. split; [left; reflexivity|]. exists 1, MW. split; [reflexivity|]. left. exists MW. split; [left; reflexivity|reflexivity].
 Qed.
-Example abba_rejected : forall rank, check [([1], 2); ([2], 1)] rank 0 = false.
+Example abba_rejected : forall rank, check [([(1, MW)], (2, MW)); ([(2, MW)], (1, MW))] rank 0 = false.
 Proof.
   intro rank. unfold check. cbn -[Nat.ltb].
   destruct (Nat.ltb (rank 1) (rank 2)) eqn:E1; cbn -[Nat.ltb]; [|reflexivity].
   destruct (Nat.ltb (rank 2) (rank 1)) eqn:E2; cbn -[Nat.ltb]; [|reflexivity].
   apply Nat.ltb_lt in E1. apply Nat.ltb_lt in E2. lia.
 Qed.
-(* the same inversion under a common gate lock 9 passes (both inner locks only held under the gate) *)
-Example gated_inversion_accepted : check [([9], 1); ([9], 2); ([9; 1], 2); ([9; 2], 1)] (rank_of [(9, 0); (1, 1); (2, 2)]) 9 = true.
+
+(* the classic re-entrant read: thread 0 holds a read guard of lock 1 and asks for another one while
+   thread 1 waits for the write lock - a deadlock; the same second read without a waiting writer is not blocked *)
+Definition reentrant_read_state : lstate :=
+  fun t => match t with
+           | 0 => {| held := [(1, MR)]; want := Some (1, MR) |}
+           | 1 => {| held := []; want := Some (1, MW) |}
+           | _ => {| held := []; want := None |}
+           end.
+Example reentrant_read_deadlocked : deadlocked reentrant_read_state.
+Proof.
+  exists [0; 1]. split; [discriminate|].
+  intros t [<-|[<-|[]]].
+  - exists 1. split; [right; left; reflexivity|]. exists 1, MR. split; [reflexivity|]. right. split; reflexivity.
+  - exists 0. split; [left; reflexivity|]. exists 1, MW. split; [reflexivity|]. left. exists MR. split; [left; reflexivity|reflexivity].
+Qed.
+Example reentrant_read_rejected : forall rank g, check [([(1, MR)], (1, MR))] rank g = false.
+Proof. intros rank g. reflexivity. Qed.
+Example readers_do_not_block_readers :
+  let st : lstate := fun t => match t with 0 => {| held := [(1, MR)]; want := None |} | _ => {| held := []; want := Some (1, MR) |} end in
+  ~ blocked_by st 1 0.
+Proof.
+  cbn. intros (l & m & Hw & [(m' & Hin & Hc)|[_ Hq]]).
+  - inversion Hw; subst. destruct Hin as [E|[]]. inversion E; subst. discriminate Hc.
+  - discriminate Hq.
+Qed.
+(* an inversion under a common gate lock 9 passes; it is rejected once an inner lock is also taken outside the gate *)
+Example gated_inversion_accepted :
+  check [([(9, MW)], (1, MW)); ([(9, MW)], (2, MW)); ([(9, MW); (1, MW)], (2, MW)); ([(9, MW); (2, MW)], (1, MW))]
+        (rank_of [(9, 0); (1, 1); (2, 2)]) 9 = true.
 Proof. vm_compute. reflexivity. Qed.
-(* ... and is rejected as soon as one of the inner locks is also taken without the gate while holding the other *)
-Example ungated_inversion_rejected : check [([9], 1); ([9; 1], 2); ([2], 1)] (rank_of [(9, 0); (1, 1); (2, 2)]) 9 = false.
+Example ungated_inversion_rejected :
+  check [([(9, MW)], (1, MW)); ([(9, MW); (1, MW)], (2, MW)); ([(2, MW)], (1, MW))] (rank_of [(9, 0); (1, 1); (2, 2)]) 9 = false.
+Proof. vm_compute. reflexivity. Qed.
+(* a read under the gate of a lock whose writers also run outside the gate is not exempt (queued writer) *)
+Example gated_read_with_ungated_writer_rejected :
+  check [([(9, MW); (2, MW)], (1, MR)); ([], (1, MW)); ([(9, MW); (1, MR)], (2, MW))] (rank_of [(9, 0); (1, 1); (2, 2)]) 9 = false.
 Proof. vm_compute. reflexivity. Qed.
